@@ -122,3 +122,12 @@ Proof.
   pose proof (roundtrip_to_from pv t v2 bs W Y2 N2 H2) as R2.
   rewrite R1 in R2. inversion R2. reflexivity.
 Qed.
+
+(* ------------------------------------------------------------------ the calendar day of an instant (util.Date of a datetime) *)
+Lemma date_of_instant : forall d tod, 0 <= tod < 86400 -> date_days_of_seconds (86400 * d + tod) = d.
+Proof. intros d tod H. unfold date_days_of_seconds. symmetry. apply Z.div_unique with (r := tod); lia. Qed.
+
+Lemma date_day_contains : forall secs, 86400 * date_days_of_seconds secs <= secs < 86400 * (date_days_of_seconds secs + 1).
+Proof.
+  intros. unfold date_days_of_seconds. pose proof (Z.div_mod secs 86400 ltac:(lia)). pose proof (Z.mod_pos_bound secs 86400 ltac:(lia)). lia.
+Qed.
